@@ -165,6 +165,8 @@ func (e *Engine) compSortGuess(u *Unit, c string) string {
 		return "Int"
 	case "ChRecv", "ChSentN", "ChClosed":
 		return "(Array Int Int)"
+	case "ChStamp":
+		return "(Array Int (Array Int Int))"
 	}
 	if s, ok := u.pendingSorts[c]; ok {
 		return s
@@ -266,6 +268,7 @@ func (e *Engine) instrMods(ins ssa.Instruction, out map[string]bool, depth int) 
 		c, s := u.chanElemComp(ct)
 		note(c, s)
 		out["ChSentN"] = true
+		note("ChStamp", "(Array Int (Array Int Int))")
 	case *ssa.UnOp:
 		if x.Op == token.ARROW {
 			out["ChRecv"] = true
@@ -410,6 +413,21 @@ func (e *Engine) modTargetComps(u *Unit, ct *Contract, callee *ssa.Function, cc 
 		switch fn.Name {
 		case "elems":
 			t := e.staticTypeOf(callee, cc, call.Args[0])
+			if t == nil {
+				return nil
+			}
+			// owned backing store of a type declared in another package is invisible here
+			if sel, ok := call.Args[0].(*ast.SelectorExpr); ok {
+				if bt := e.staticTypeOf(callee, cc, sel.X); bt != nil {
+					if n, ok := derefType(bt).(*types.Named); ok {
+						if ts := e.lib.Types[typeKey(n)]; ts != nil && contains(ts.Owned, sel.Sel.Name) {
+							if u.fn.Pkg == nil || n.Obj().Pkg() != u.fn.Pkg.Pkg {
+								return nil
+							}
+						}
+					}
+				}
+			}
 			if st, ok := t.Underlying().(*types.Slice); ok {
 				c, s := u.elemComp(st.Elem())
 				return [][2]string{{c, s}}
@@ -420,7 +438,7 @@ func (e *Engine) modTargetComps(u *Unit, ct *Contract, callee *ssa.Function, cc 
 			t := e.staticTypeOf(callee, cc, call.Args[0])
 			if cht, ok := t.Underlying().(*types.Chan); ok {
 				c, s := u.chanElemComp(cht)
-				return [][2]string{{c, s}, {"ChSentN", "(Array Int Int)"}}
+				return [][2]string{{c, s}, {"ChSentN", "(Array Int Int)"}, {"ChStamp", "(Array Int (Array Int Int))"}}
 			}
 		case "closed":
 			return [][2]string{{"ChClosed", "(Array Int Int)"}}
